@@ -19,7 +19,7 @@ theorem mc_flagJob {p : Nat → Bool} {j : Job} (h : Job.mc (flagJob p j) = true
 
 theorem jobOK_flagJob {c : Cfg} {g g' : Nat} {p : Nat → Bool} {j : Job} (h : jobOK c g j)
     (hm : Job.mc j = false) : jobOK c g' (flagJob p j) := by
-  refine ⟨h.1, ?_, ?_⟩
+  refine ⟨h.1, ?_, ?_, h.2.2.2.1, ?_⟩
   · intro hh; rw [mc_flagJob hh] at hm; cases hm
   · intro f hf hi
     unfold flagJob at hf
@@ -29,20 +29,38 @@ theorem jobOK_flagJob {c : Cfg} {g g' : Nat} {p : Nat → Bool} {j : Job} (h : j
       simp only [hu, Option.map_some, Option.some.injEq] at hf
       split at hf
       · subst hf; simp [UF.flagBad] at hi
-      · subst hf; exact h.2.2 f0 hu hi
+      · subst hf; exact h.2.2.1 f0 hu hi
+  · intro f hf
+    unfold flagJob at hf
+    cases hu : j.ub with
+    | none => simp [hu] at hf
+    | some f0 =>
+      simp only [hu, Option.map_some, Option.some.injEq] at hf
+      split at hf
+      · subst hf; exact h.2.2.2.2 f0 hu
+      · subst hf; exact h.2.2.2.2 f0 hu
 
 theorem jobOK_flagJob' {c : Cfg} {g : Nat} {p : Nat → Bool} {j : Job} (h : jobOK c g j) :
     jobOK c g (flagJob p j) := by
-  refine ⟨h.1, fun hh => h.2.1 (mc_flagJob hh), ?_⟩
-  intro f hf hi
-  unfold flagJob at hf
-  cases hu : j.ub with
-  | none => simp [hu] at hf
-  | some f0 =>
-    simp only [hu, Option.map_some, Option.some.injEq] at hf
-    split at hf
-    · subst hf; simp [UF.flagBad] at hi
-    · subst hf; exact h.2.2 f0 hu hi
+  refine ⟨h.1, fun hh => h.2.1 (mc_flagJob hh), ?_, h.2.2.2.1, ?_⟩
+  · intro f hf hi
+    unfold flagJob at hf
+    cases hu : j.ub with
+    | none => simp [hu] at hf
+    | some f0 =>
+      simp only [hu, Option.map_some, Option.some.injEq] at hf
+      split at hf
+      · subst hf; simp [UF.flagBad] at hi
+      · subst hf; exact h.2.2.1 f0 hu hi
+  · intro f hf
+    unfold flagJob at hf
+    cases hu : j.ub with
+    | none => simp [hu] at hf
+    | some f0 =>
+      simp only [hu, Option.map_some, Option.some.injEq] at hf
+      split at hf
+      · subst hf; exact h.2.2.2.2 f0 hu
+      · subst hf; exact h.2.2.2.2 f0 hu
 
 theorem mc_flagPhase {p : Nat → Bool} {ph : Phase} (h : Phase.mc (flagPhase p ph) = true) :
     Phase.mc ph = true := by
@@ -78,13 +96,13 @@ theorem phaseOK_flag' {c : Cfg} {g : Nat} {p : Nat → Bool} {ph : Phase} (h : p
   | emit e => exact h
   | scan a b => trivial
 
-theorem ubOK_popOrphans {c : Cfg} {p : Nat → Bool} {os : List UB} (h : ∀ u ∈ os, ubOK c u) :
-    ∀ u ∈ popOrphans p os, ubOK c u := by
+theorem ubOK_popOrphans {c : Cfg} {s : State} {p : Nat → Bool} {os : List UB}
+    (h : ∀ u ∈ os, ubOK c s u) : ∀ u ∈ popOrphans p os, ubOK c s u := by
   intro u hu
   simp only [popOrphans, List.mem_map, List.mem_filter] at hu
   obtain ⟨x, ⟨hx, _⟩, rfl⟩ := hu
   split
-  · intro hi; simp [UF.flagBad] at hi
+  · exact ⟨rfl, fun hi => by simp [UF.flagBad] at hi⟩
   · exact h x hx
 
 theorem mcount_zero_jobs {s : State} (h : mcount s = 0) :
@@ -101,20 +119,23 @@ structure PPre (c : Cfg) (s1 : State) : Prop where
   pd : s1.pdone = false
   nf : s1.failed = false
 
-theorem PPre_advance {c : Cfg} {s1 : State} (p : Nat) (h : PPre c s1) : PPre c (advance c s1 p) := by
+theorem PPre_advance {c : Cfg} {s1 : State} (p : Nat) (h : PPre c s1)
+    (hp : ∀ b, pres c s1.gnext = .hdr b → p ≤ b) : PPre c (advance c s1 p) := by
   obtain ⟨h1, h2, h3, h4, h5, h7⟩ := h
   have hc : mcount (advance c s1 p) ≤ mcount s1 :=
     mcount_le_of (List.Sublist.countP_le List.filter_sublist) (Nat.le_refl _)
-  exact ⟨SI_advance p h1, h2, h3, by omega, h5, h7⟩
+  exact ⟨SI_advance p h1 (fun _ => hp), h2, h3, by omega, h5, h7⟩
 
 theorem PPre_push {c : Cfg} {s1 : State} {b : Nat} (h : PPre c s1) (hp : pres c s1.gnext = .hdr b) :
-    PPre c (parsePush c s1 b) ∧ (parsePush c s1 b).gnext = (rres c b).e := by
+    PPre c (parsePush c s1 b) ∧ (parsePush c s1 b).gnext = (rres c b).e ∧
+    headOffs c (parsePush c s1 b) ≤ b := by
   have hb := pres_hdr hp
   have he := rres_ge c b
   have hl := rres_le (c := c) hb.2
-  obtain ⟨⟨a1, a2, a3, a4, a5, a6, a7, a8, a9, a10, a11, a12⟩, h2, h3, h4, h5, h7⟩ :=
-    PPre_advance b h
+  obtain ⟨⟨a1, a2, a3, a4, a5, a6, a7, a8, a9, a10, a11, a12, a13⟩, h2, h3, h4, h5, h7⟩ :=
+    PPre_advance b h (fun b' hb' => by rw [hp] at hb'; cases hb'; exact Nat.le_refl _)
   have hz := mcount_zero_jobs h4
+  have hhb : headOffs c (advance c s1 b) ≤ b := a13 h5 b hp
   have hfield : (advance c s1 b).gnext = s1.gnext := rfl
   have hm0 : mcount (parsePush c s1 b) = 0 := by
     have h1 := countP_flag_jobs (fun x => decide (x < b)) (advance c s1 b).retrQ
@@ -123,7 +144,7 @@ theorem PPre_push {c : Cfg} {s1 : State} {b : Nat} (h : PPre c s1) (hp : pres c 
     show List.countP Job.mc (List.map _ (advance c s1 b).retrQ)
       + List.countP Phase.mc (List.map _ (advance c s1 b).busy) = 0
     omega
-  refine ⟨⟨⟨?_, hl, ?_, ?_, ?_, ?_, ?_, ?_, a9, a10, ?_, ?_⟩, h2, h3, hm0, h5, h7⟩, rfl⟩
+  refine ⟨⟨⟨?_, hl, ?_, ?_, ?_, ?_, ?_, ?_, a9, a10, ?_, ?_, ?_⟩, h2, h3, hm0, h5, h7⟩, rfl, hhb⟩
   · -- main
     have hfut : future c (advance c s1 b) = seqFrom c (c.T + 1 - s1.gnext) s1.gnext := by
       simp [future, h5, hfield]
@@ -161,10 +182,28 @@ theorem PPre_push {c : Cfg} {s1 : State} {b : Nat} (h : PPre c s1) (hp : pres c 
     simp only [parsePush, List.mem_map] at hph
     obtain ⟨x, hx, rfl⟩ := hph
     exact phaseOK_flag (a8 x hx) (hz.2 x hx)
-  · exact ubOK_popOrphans (p := fun x => decide (x < b)) a11
+  · intro _
+    exact ubOK_popOrphans (s := parsePush c s1 b) (p := fun x => decide (x < b))
+      (fun u hu => a11 h5 u hu)
   · intro hh
     rw [show (parsePush c s1 b).pphase = (advance c s1 b).pphase from rfl,
         h3] at hh; cases hh
+  · intro _ b' hb'
+    have h1 := (pres_hdr hb').1
+    show headOffs c (advance c s1 b) ≤ b'
+    have : (parsePush c s1 b).gnext = (rres c b).e := rfl
+    rw [this] at h1
+    omega
+
+theorem endp_le_job {c : Cfg} {g b : Nat} {j : Job} (h : jobOK c g j)
+    (hq : Job.inqAt b j = true) : j.endp ≤ (rres c b).e := by
+  unfold Job.inqAt at hq; unfold Job.endp
+  cases hu : j.ub with
+  | none => simp [hu] at hq
+  | some f =>
+    simp only [hu, Bool.and_eq_true, beq_iff_eq] at hq ⊢
+    have := h.2.2.2.2 f hu
+    rw [hq.2] at this; exact this
 
 
 theorem jobOK_good {c : Cfg} {b : Nat} {j : Job} (h : jobOK c (rres c b).e j)
@@ -174,15 +213,23 @@ theorem jobOK_good {c : Cfg} {b : Nat} {j : Job} (h : jobOK c (rres c b).e j)
   | none => simp [hu] at hq
   | some f =>
     simp only [hu, Bool.and_eq_true, beq_iff_eq] at hq
-    refine ⟨h.1, ?_, ?_⟩
+    refine ⟨h.1, ?_, ?_, h.2.2.2.1, ?_⟩
     · intro _; show (rres c j.base).e = _; rw [hq.2]
     · intro f' hf' hi
       simp only [Job.good, hu, Option.map_some, Option.some.injEq] at hf'
       subst hf'; simp [UF.flagGood] at hi
+    · intro f' hf'
+      simp only [Job.good, hu, Option.map_some, Option.some.injEq] at hf'
+      subst hf'; exact h.2.2.2.2 f hu
 
-theorem PPre_match {c : Cfg} {s3 : State} {b : Nat} (h : PPre c s3) (hg : s3.gnext = (rres c b).e) :
+theorem PPre_match {c : Cfg} {s3 : State} {b : Nat} (h : PPre c s3) (hg : s3.gnext = (rres c b).e)
+    (hhb : headOffs c s3 ≤ b) :
     SI c (parseMatch c s3 b) ∧ (parseMatch c s3 b).failed = false := by
-  obtain ⟨⟨a1, a2, a3, a4, a5, a6, a7, a8, a9, a10, a11, a12⟩, h2, h3, h4, h5, h7⟩ := h
+  obtain ⟨⟨a1, a2, a3, a4, a5, a6, a7, a8, a9, a10, a11, a12, a13⟩, h2, h3, h4, h5, h7⟩ := h
+  have hle : ∀ p, p ≤ (rres c b).e → ∀ b', pres c s3.gnext = .hdr b' → p ≤ b' := by
+    intro p hp b' hb'
+    have := (pres_hdr hb').1
+    rw [hg] at this; omega
   have hm := h4
   simp only [mcount] at hm
   unfold parseMatch
@@ -193,7 +240,7 @@ theorem PPre_match {c : Cfg} {s3 : State} {b : Nat} (h : PPre c s3) (hg : s3.gne
     have hjq := List.find?_some hj
     have hcnt := countP_replaceFirst_le Job.mc (Job.inqAt b) Job.good s3.retrQ
     have hS : SI c { s3 with retrQ := replaceFirst (Job.inqAt b) Job.good s3.retrQ } := by
-      refine ⟨a1, a2, a3, a4, ?_, ?_, ?_, a8, a9, a10, a11, a12⟩
+      refine ⟨a1, a2, a3, a4, ?_, ?_, ?_, a8, a9, a10, a11, a12, a13⟩
       · show List.countP Job.mc (replaceFirst _ _ s3.retrQ) + List.countP Phase.mc s3.busy ≤ 1
         omega
       · intro hh
@@ -209,13 +256,15 @@ theorem PPre_match {c : Cfg} {s3 : State} {b : Nat} (h : PPre c s3) (hg : s3.gne
           show jobOK c s3.gnext x.good
           rw [hg] at this ⊢
           exact jobOK_good this hq
-    exact ⟨SI_congr (SI_advance j.endp hS) rfl rfl rfl rfl rfl rfl rfl rfl rfl rfl rfl rfl, h7⟩
+    have hend : j.endp ≤ (rres c b).e := by
+      have := a7 j hjm; rw [hg] at this; exact endp_le_job this hjq
+    exact ⟨SI_congr (SI_advance j.endp hS (fun _ => hle _ hend)) rfl rfl rfl rfl rfl rfl rfl rfl rfl rfl rfl rfl rfl, h7⟩
   · split
     · -- … is running
       next ph hph =>
       have hcnt := countP_replaceFirst_le Phase.mc (Phase.inqAt b) Phase.good s3.busy
       have hS : SI c { s3 with busy := replaceFirst (Phase.inqAt b) Phase.good s3.busy } := by
-        refine ⟨a1, a2, a3, a4, ?_, ?_, a7, ?_, a9, a10, a11, a12⟩
+        refine ⟨a1, a2, a3, a4, ?_, ?_, a7, ?_, a9, a10, a11, a12, a13⟩
         · show List.countP Job.mc s3.retrQ + List.countP Phase.mc (replaceFirst _ _ s3.busy) ≤ 1
           omega
         · intro hh
@@ -236,33 +285,45 @@ theorem PPre_match {c : Cfg} {s3 : State} {b : Nat} (h : PPre c s3) (hg : s3.gne
             | retr2 e => exact this
             | emit e => exact this
             | scan a b => trivial
-      exact ⟨SI_congr (SI_advance ph.endp hS) rfl rfl rfl rfl rfl rfl rfl rfl rfl rfl rfl rfl, h7⟩
+      have hend : ph.endp ≤ (rres c b).e := by
+        have hpm := List.mem_of_find?_eq_some hph
+        have hpq := List.find?_some hph
+        have := a8 ph hpm
+        cases ph with
+        | retr j k => rw [hg] at this; exact endp_le_job this hpq
+        | retr2 e => exact Nat.zero_le _
+        | emit e => exact Nat.zero_le _
+        | scan a b => exact Nat.zero_le _
+      exact ⟨SI_congr (SI_advance ph.endp hS (fun _ => hle _ hend)) rfl rfl rfl rfl rfl rfl rfl rfl rfl rfl rfl rfl rfl, h7⟩
     · split
       · -- … has finished (or was dropped): the entry is an orphan
         next u hu =>
         have hum := List.mem_of_find?_eq_some hu
         have huq := List.find?_some hu
         simp only [Bool.and_eq_true, beq_iff_eq] at huq
-        have hA := SI_advance u.f.endp (c := c) (s := s3) ⟨a1, a2, a3, a4, a5, a6, a7, a8, a9, a10, a11, a12⟩
-        have hcA : mcount (advance c s3 u.f.endp) ≤ mcount s3 :=
-          mcount_le_of (List.Sublist.countP_le List.filter_sublist) (Nat.le_refl _)
-        obtain ⟨b1, b2, b3, b4, b5, b6, b7, b8, b9, b10, b11, b12⟩ := hA
-        split
-        · next hc =>
-          refine ⟨⟨b1, b2, ?_, ?_, b5, ?_, b7, b8, b9, b10, ?_, b12⟩, h7⟩
+        by_cases hc : u.f.complete = true
+        · -- a block that really was retrieved to its end (a `discard()`ed
+          -- entry lies behind head_offs ≤ b and cannot be at b)
+          have hend : u.f.endp = (rres c b).e := by
+            rcases (a11 h5 u hum).2 huq.1 with h | h
+            · rw [h, huq.2]
+            · rw [huq.2] at h; omega
+          have hA := SI_advance u.f.endp (c := c) (s := s3)
+            ⟨a1, a2, a3, a4, a5, a6, a7, a8, a9, a10, a11, a12, a13⟩ (fun _ => hle _ (by omega))
+          have hcA : mcount (advance c s3 u.f.endp) ≤ mcount s3 :=
+            mcount_le_of (List.Sublist.countP_le List.filter_sublist) (Nat.le_refl _)
+          obtain ⟨b1, b2, b3, b4, b5, b6, b7, b8, b9, b10, b11, b12, b13⟩ := hA
+          rw [if_pos hc]
+          refine ⟨⟨b1, b2, ?_, ?_, b5, ?_, b7, b8, b9, b10, ?_, b12, b13⟩, h7⟩
           · intro _
             show u.f.endp = s3.gnext
-            rw [hg, a11 u hum huq.1 hc, huq.2]
+            rw [hg, hend]
           · intro _; exact h3
           · intro _; show mcount (advance c s3 u.f.endp) = 0; omega
-          · intro x hx; exact b11 x (List.mem_of_mem_erase hx)
-        · refine ⟨⟨b1, b2, b3, b4, b5, b6, b7, b8, b9, b10, ?_, b12⟩, h7⟩
-          intro y hy
-          rcases mem_replaceFirst _ _ hy with hy | ⟨x, hx, _, rfl⟩
-          · exact b11 y hy
-          · intro hi; simp [UF.flagGood] at hi
+          · intro hd x hx; exact b11 hd x (List.mem_of_mem_erase hx)
+        · exact absurd (a11 h5 u hum).1 hc
       · -- nobody found it: the parser creates the master job
-        refine ⟨⟨a1, a2, a3, a4, ?_, ?_, ?_, a8, a9, a10, a11, a12⟩, h7⟩
+        refine ⟨⟨a1, a2, a3, a4, ?_, ?_, ?_, a8, a9, a10, a11, a12, a13⟩, h7⟩
         · show List.countP Job.mc (_ :: s3.retrQ) + List.countP Phase.mc s3.busy ≤ 1
           rw [List.countP_cons]; split <;> omega
         · intro hh
@@ -361,7 +422,7 @@ theorem Good_parseEnd {c : Cfg} {s s' : State} (h : SI c s) (hf : s.failed = fal
       | false => rfl
       | true => have := h.excl hp; rw [hk] at this; cases this
     have hS0 : SI c { s with pphase := none } := by
-      obtain ⟨a1, a2, a3, a4, a5, a6, a7, a8, a9, a10, a11, a12⟩ := h
+      obtain ⟨a1, a2, a3, a4, a5, a6, a7, a8, a9, a10, a11, a12, a13⟩ := h
       refine ⟨a1, a2, ?_, fun _ => rfl, a5, ?_, a7, a8, a9, a10, a11, ?_⟩
       · intro _; exact hpo
       · intro _; exact hm0
